@@ -61,6 +61,19 @@ def points(tier: str) -> List[Dict[str, Any]]:
         if depth >= 3:
             for seq in itertools.product([(g, a) for g in red_gaps for a in red_acts], repeat=3):
                 pts.append({"delay": delay, "forced": None, "jitter": 0.0, "types": "a", "events": list(seq)})
+    # a re-announcement with another TTL whose 75 % instant coincides (within a delay) with the armed 75 % / 85 % / 95 %
+    # query of the copy it replaces: the armed query is kept - its later steps must follow the new record
+    for delay in (1000, 10_000):
+        for t1, t2 in ((9000, 4500), (4500, 1200), (9000, 1200), (4500, 2250), (1200, 4500)):
+            for step in (0.75, 0.85, 0.95):
+                base = (step * t1 - 0.75 * t2) * 1000
+                for d in (-1.5, -1.0, -0.999, 0.0, 0.999, 1.0, 1.5):
+                    gap = int(base + d * delay)
+                    if gap <= 0:
+                        continue
+                    for second in (X, XU):
+                        pts.append({"delay": delay, "forced": None, "jitter": 0.0, "types": "a",
+                                    "events": [(0, ("ptr", X, t1)), (gap, ("ptr", second, t2))]})
     return pts
 
 
